@@ -146,9 +146,18 @@ impl Ser {
 
 fn main() {
     let args: Vec<String> = std::env::args().collect();
-    for path in &args[1..] {
+    let preset: usize = args[1].parse().unwrap();
+    for path in &args[2..] {
         let src = match std::fs::read_to_string(path) { Ok(s) => s, Err(_) => continue };
         let mut cfg = st::Config::default(); cfg.syntax = st::LuaVersion::Lua51; cfg.column_width = usize::MAX;
+        match preset {
+            1 => { cfg.line_endings = st::LineEndings::Windows; cfg.indent_type = st::IndentType::Spaces; cfg.indent_width = 3; cfg.quote_style = st::QuoteStyle::AutoPreferSingle; }
+            2 => { cfg.quote_style = st::QuoteStyle::ForceSingle; cfg.call_parentheses = st::CallParenType::None; cfg.space_after_function_names = st::SpaceAfterFunctionNames::Always; }
+            3 => { cfg.quote_style = st::QuoteStyle::ForceDouble; cfg.call_parentheses = st::CallParenType::NoSingleString; cfg.space_after_function_names = st::SpaceAfterFunctionNames::Calls; }
+            4 => { cfg.call_parentheses = st::CallParenType::NoSingleTable; cfg.space_after_function_names = st::SpaceAfterFunctionNames::Definitions; cfg.indent_type = st::IndentType::Spaces; cfg.indent_width = 1; }
+            5 => { cfg.call_parentheses = st::CallParenType::Input; }
+            _ => {}
+        }
         let ast = match full_moon::parse_fallible(&src, full_moon::LuaVersion::lua51()).into_result() { Ok(a) => a, Err(_) => { println!("CASE {}\nPARSEERR", path); continue } };
         let mut ser = Ser { nested: vec![] };
         let r = ser.block(ast.nodes()).and_then(|b| { let eof = ast.eof(); Ok(format!("(program {} {})", b, trivs(eof.leading_trivia())?)) });
